@@ -564,3 +564,102 @@ Example C01_term_witness_nullable := tm_ex_star_star_runs.
 Example C01_term_witness_counted := tm_ex_counted_runs.
 Example C01_term_witness_lookbehind := tm_ex_lookbehind_runs.
 Example C01_term_witness_compiled := ct_demo.
+
+(* ===================== from the PATTERN TEXT to the match ===================== *)
+(* The chain  parser (Model/Parser.v, tied to syntax.Parse by exact tree equality, leg c10-parse)  ->  writer
+   (Model/Writer.v)  ->  interpreter (Model/VM.v)  against the reference search (Model/Spec.v) on the parsed tree.
+   Proofs/ParserOk*.v prove OF EVERY TREE THE PARSER BUILDS the side conditions the theorems above take as hypotheses:
+     supported2 (arities, 0 <= M <= N <= MaxInt32, non-empty alternations)            every option word, every oracle
+     term_ok    (every loop body runs in one direction: the RightToLeft bit changes only at lookarounds)   the same
+     ren_ok / groups_ok2 for the slot map built from RegexTree.Caps / Captop (every Capture / Ref / BackRefCond number,
+                the popped number of a balancing group included, is a key of the capture table: the capture pre-scan
+                countCaptures and the main pass agree on which parentheses capture)        every option word, oracle tie below
+   and that the root is Capture 0.  [to_node sid] is the parser's RegexNode as a Tree.node through Tree.build (the decoder
+   of the harness' tree export); [sid] numbers the character sets and is arbitrary.
+   For every pattern text, option word (ECMAScript and RE2 included), MaintainCaptureOrder flag: if Parse succeeds with tree t and
+   capture table (caps, captop), then the interpreter run on the program the writer emits for t under the slot map of
+   (caps, captop), on every text and start position, never faults, returns from some interpreter fuel on (or
+   ErrBacktrackingStackLimit under a limit), and what it returns is the position and the captures of Spec.attempt on t.
+   What remains hypothetical ([_partial]):
+     - numeric: captop < 2^31-1 (no group numbered MaxInt32, fewer than 2^31-1 groups), tlen e <= INF,
+       term_fuel e root <= INF (nesting depth + loop minima + text length inside the engine's counter range);
+     - oracle tie: IsWordChar is false on ! # ' ( ) - < = > ? [ \ and true on the ASCII digits 1-9;
+     - the program is the written one: codes / strings = compile, Capsize = caps_size, TrackCount >= track_count;
+     - C01_pattern_text_end_to_end_checked: the same without the oracle tie, from the decidable per-tree check nums_b
+       (= the check nums_okb that leg c10-parse evaluates on every tree);
+     - gate mask 31: the optional final rewrites of the tree are C05's subject.
+   Five genuine defects were found by these proofs and fixed first (a5090c5, 4f8aca1, 2b27550, 5afce6b, c605b5f;
+   known_findings); the last one was the ECMAScript [a-\d] case: the pre-scan's class scanner kept a stale "in range" flag. *)
+From Verif Require Import Model.GroupMap Model.CharClass Model.Parser Proofs.GMBase Proofs.ParserOkTree Proofs.ParserOk.
+
+Theorem C01_pattern_text_end_to_end_partial :
+  forall (is_word_char : Z -> bool) (to_lower simple_fold : Z -> Z) (participates : Z -> bool)
+         (cat_in : Z -> Z -> bool) (cat_name : list Z -> Z)
+         (o : Z) (mco_flag : bool) (ptxt : list Z) (t : rnode) (caps : list Z) (captop : Z),
+  (forall c, is_word_char c = true -> negb (zmem c [33; 35; 39; 40; 41; 45; 60; 61; 62; 63; 91; 92]) = true) ->
+  (forall c, (49 <=? c) && (c <=? 57) = true -> is_word_char c = true) ->
+  captop < maxint32 ->
+  parse is_word_char to_lower simple_fold participates cat_in cat_name o mco_flag ptxt = Ok (PR_Tree t caps captop) ->
+  forall sid : cls -> Z, exists body,
+    let root := NCapture (n_o t) 0 (-1) body in
+    let cm := caps_map caps captop in
+    let c := {| capmap := cm; quick := None |} in
+    to_node sid t = Some root /\
+    forall (e : env) (p : program),
+      0 <= trackcount p -> track_count (codes p) <= trackcount p -> tlen e <= INF ->
+      codes p = fst (compile c root) -> strings p = snd (compile c root) -> capsize p = caps_size caps captop ->
+      Z.of_nat (term_fuel e root) <= INF ->
+      forall t0, 0 <= t0 <= tlen e ->
+      exists r, attempt e (term_fuel e root) root t0 = Ok r /\
+      exists vfuel0 : nat, forall L vfuel, (vfuel0 <= vfuel)%nat ->
+        let x := exec_at e p L vfuel t0 in
+        ((x = Err E_StackLimit /\ 0 <= L) \/
+         (exists s', x = Ok s' /\ pc s' = 2 + csize c root /\ mode s' = 0 /\
+            match r with
+            | Some q => tp s' = pos q /\ caps_rel_map p cm (Spec.caps q) (mcaps s') /\ matched0 s' = true
+            | None => mcaps s' = repeat [] (Z.to_nat (capsize p)) /\ matched0 s' = false
+            end)) /\
+        (L < 0 -> exists s', x = Ok s').
+Proof. exact pattern_text_end_to_end. Qed.
+Print Assumptions C01_pattern_text_end_to_end_partial.
+
+(* without the oracle tie: the group numbers checked on the tree *)
+Theorem C01_pattern_text_end_to_end_checked :
+  forall (is_word_char : Z -> bool) (to_lower simple_fold : Z -> Z) (participates : Z -> bool)
+         (cat_in : Z -> Z -> bool) (cat_name : list Z -> Z)
+         (o : Z) (mco_flag : bool) (ptxt : list Z) (t : rnode) (caps : list Z) (captop : Z),
+  captop < maxint32 ->
+  parse is_word_char to_lower simple_fold participates cat_in cat_name o mco_flag ptxt = Ok (PR_Tree t caps captop) ->
+  nums_b caps t = true ->
+  forall sid : cls -> Z, exists body,
+    to_node sid t = Some (NCapture (n_o t) 0 (-1) body) /\
+    runs_as_spec caps captop (NCapture (n_o t) 0 (-1) body).
+Proof. exact pattern_text_end_to_end_checked. Qed.
+Print Assumptions C01_pattern_text_end_to_end_checked.
+
+(* the side conditions themselves, on the converted tree *)
+Theorem C01_parsed_tree_is_supported_and_terminating :
+  forall (is_word_char : Z -> bool) (to_lower simple_fold : Z -> Z) (participates : Z -> bool)
+         (cat_in : Z -> Z -> bool) (cat_name : list Z -> Z)
+         (o : Z) (mco_flag : bool) (ptxt : list Z) (t : rnode) (caps : list Z) (captop : Z),
+  parse is_word_char to_lower simple_fold participates cat_in cat_name o mco_flag ptxt = Ok (PR_Tree t caps captop) ->
+  forall sid : cls -> Z, exists body,
+    to_node sid t = Some (NCapture (n_o t) 0 (-1) body) /\
+    supported2 (NCapture (n_o t) 0 (-1) body) = true /\ term_ok (NCapture (n_o t) 0 (-1) body) = true.
+Proof. exact parsed_tree_supported_term. Qed.
+Print Assumptions C01_parsed_tree_is_supported_and_terminating.
+
+Theorem C01_parsed_tree_group_numbers_partial :
+  forall (is_word_char : Z -> bool) (to_lower simple_fold : Z -> Z) (participates : Z -> bool)
+         (cat_in : Z -> Z -> bool) (cat_name : list Z -> Z)
+         (o : Z) (mco_flag : bool) (ptxt : list Z) (t : rnode) (caps : list Z) (captop : Z),
+  (forall c, is_word_char c = true -> negb (zmem c [33; 35; 39; 40; 41; 45; 60; 61; 62; 63; 91; 92]) = true) ->
+  (forall c, (49 <=? c) && (c <=? 57) = true -> is_word_char c = true) ->
+  captop < maxint32 ->
+  parse is_word_char to_lower simple_fold participates cat_in cat_name o mco_flag ptxt = Ok (PR_Tree t caps captop) ->
+  forall sid : cls -> Z, exists body,
+    to_node sid t = Some (NCapture (n_o t) 0 (-1) body) /\
+    supported2 (NCapture (n_o t) 0 (-1) body) = true /\ term_ok (NCapture (n_o t) 0 (-1) body) = true /\
+    ren_ok (fun g => zmem g caps = true) (NCapture (n_o t) 0 (-1) body).
+Proof. exact parsed_tree_groups. Qed.
+Print Assumptions C01_parsed_tree_group_numbers_partial.
